@@ -278,55 +278,7 @@ def rule_set_algebra(run, F, cfg):
 
 
 def _deep_origins(f, op, depth=0):
-    """origins, descending through call arguments (collect / map / iter chains)"""
-    out = set()
-    seen = set()
-
-    def go_local(l):
-        if l in seen:
-            return
-        seen.add(l)
-        if 1 <= l <= f.argc:
-            out.add(f.local_name(l))
-            return
-        for d in f.defs().get(l, []):
-            if d[0] == "assign":
-                go_rv(d[3]["rv"])
-            else:
-                t = d[2]
-                out.add("call:" + strip_generics(t["callee"]))
-                for a in t["args"]:
-                    go_op(a)
-
-    def go_op(o):
-        if o["k"] in ("copy", "move"):
-            base_before = set(out)
-            go_local(o["pl"]["l"])
-            suffix = f._apply_proj("", o["pl"]["p"])
-            if suffix:
-                for x in list(out - base_before):
-                    out.add(x + suffix)
-                if 1 <= o["pl"]["l"] <= f.argc:
-                    out.add(f.local_name(o["pl"]["l"]) + suffix)
-        elif o["k"] == "const":
-            pass
-
-    def go_rv(rv):
-        k = rv["k"]
-        if k in ("use", "cast", "repeat"):
-            go_op(rv.get("op"))
-        elif k == "unop":
-            go_op(rv.get("a"))
-        elif k in ("ref", "rawptr", "discr"):
-            go_op({"k": "copy", "pl": rv["pl"]})
-        elif k == "binop":
-            go_op(rv["a"])
-            go_op(rv["b"])
-        elif k == "agg":
-            for o in rv["ops"]:
-                go_op(o)
-    go_op(op)
-    return out
+    return f.deep_origins(op)
 
 
 def _postdom(run, f, calls, who, cfg):
